@@ -471,3 +471,120 @@ func fieldAddrLikeWritten(ia *ssa.IndexAddr) bool {
 	}
 	return false
 }
+
+// ruleMetricsPreBound: the node's metrics are go-kit metrics declared with the caller's label
+// names and bound to their values once, in the constructor. A further With(...) on such a metric
+// adds label values the Prometheus collector was not declared with: under Prometheus (not under
+// the no-op metrics every test uses) the first Add / Set / Observe through it panics with
+// "inconsistent label cardinality" — in a worker loop without recover that ends the node. Census:
+// no function reachable from the given roots binds labels on a metric outside the constructors.
+func ruleMetricsPreBound(c *Check, p *Prog, rule string, roots []*ssa.Function, depth int) {
+	c.Doc(rule, "CS: no function reachable from the loop(s) calls With(...) on a go-kit metric outside the metrics constructors: the metrics are bound to all their declared labels at construction, and an extra label value makes the Prometheus collector panic (inconsistent label cardinality) on the path that uses it — e.g. on the first transient fetch error of a node running with Prometheus enabled.")
+	isCtor := func(fn *ssa.Function) bool {
+		// a constructor builds metrics from the Prometheus / discard providers
+		return callsNamed(topParent(fn), func(n string) bool {
+			return strings.Contains(n, "go-kit/kit/metrics/prometheus.New") || strings.Contains(n, "go-kit/kit/metrics/discard.New")
+		})
+	}
+	n := 0
+	seen := map[ssa.Instruction]bool{}
+	for _, r := range roots {
+		g := BuildECFG(p, r, ExpandOpts{MaxDepth: depth})
+		c.NoteGraph(g)
+		live := g.Live()
+		var bad []string
+		for _, nd := range g.Nodes {
+			if !live[nd] || nd.Kind != NInstr || nd.In == nil {
+				continue
+			}
+			cn := CallName(nd)
+			if !strings.HasPrefix(cn, "(github.com/go-kit/kit/metrics.") || !strings.HasSuffix(cn, ").With") {
+				continue
+			}
+			if isCtor(nd.Ctx.Fn) || seen[nd.In] {
+				continue
+			}
+			seen[nd.In] = true
+			if metricDeclaresLabels(p, nd, isCtor) {
+				continue // the metric was declared with these label names and left unbound for them
+			}
+			bad = append(bad, fnShort(nd.Ctx.Fn)+"@"+p.InstrPos(nd.In))
+		}
+		n++
+		sort.Strings(bad)
+		inst := fnShort(r) + " ⟂ metrics are used as bound by the constructor"
+		if len(bad) == 0 {
+			c.OK(rule, inst, fnName(r), p.Pos(r.Pos()), "no label is bound on a metric outside the constructors", true)
+		} else {
+			c.Bad(rule, inst, fnName(r), p.Pos(r.Pos()), "a label is bound on an already fully bound metric at "+strings.Join(bad, ", ")+": with Prometheus enabled the collector panics (inconsistent label cardinality) when the metric is used, and the loop has no recover — the node dies instead of retrying", nil)
+		}
+	}
+	if n == 0 {
+		c.Unk(rule, "roots", "", "", "anchor lost: no loop to examine")
+	}
+}
+
+// metricDeclaresLabels: the With call binds constant label names, all of which appear as string
+// constants in the label-name list the Prometheus constructor of that very metric field was given.
+func metricDeclaresLabels(p *Prog, nd *Node, isCtor func(*ssa.Function) bool) bool {
+	recv := RecvTerm(nd)
+	cc := CallCommonOf(nd)
+	if recv == nil || recv.Op != "field" || cc == nil {
+		return false
+	}
+	// the label names bound here: the even elements of the variadic list
+	var keys []string
+	for _, a := range cc.Args {
+		t := TermOf(a, nd.Ctx)
+		if t.Op != "list" && t.Op != "slice" && t.Op != "alloc" {
+			continue
+		}
+		for i, e := range t.Args {
+			if i%2 == 0 {
+				u := e.unconv()
+				if u.Op != "const" || !strings.HasPrefix(u.Name, "\"") {
+					return false
+				}
+				keys = append(keys, u.Name)
+			}
+		}
+	}
+	if len(keys) == 0 {
+		return false
+	}
+	declared := map[string]bool{}
+	for _, fn := range p.Funcs {
+		if fn.Blocks == nil || !isCtor(fn) {
+			continue
+		}
+		for _, b := range fn.Blocks {
+			for _, in := range b.Instrs {
+				st, ok := in.(*ssa.Store)
+				if !ok {
+					continue
+				}
+				fa, ok := st.Addr.(*ssa.FieldAddr)
+				if !ok || fieldLabel(fa.X.Type(), fa.Field) != recv.Name {
+					continue
+				}
+				TermOf(st.Val, &Ctx{Fn: fn}).Walk(func(x *Term) bool {
+					if (x.Op == "call") && strings.Contains(x.Name, "go-kit/kit/metrics/prometheus.New") && len(x.Args) >= 2 {
+						x.Args[1].Walk(func(y *Term) bool {
+							if y.Op == "const" && strings.HasPrefix(y.Name, "\"") {
+								declared[y.Name] = true
+							}
+							return true
+						})
+					}
+					return true
+				})
+			}
+		}
+	}
+	for _, k := range keys {
+		if !declared[k] {
+			return false
+		}
+	}
+	return true
+}
